@@ -57,7 +57,8 @@ claim("C05", "E3+E5",
       "Static decision of structural necessary conditions of 'every emitted font is well-formed': (T2) count fields of emitted tables never come from the FEA override tables; "
       "(T3) a table builder's is_empty() verdict - which decides whether the table is emitted at all - is taken after every field it reads is final (a half-filled "
       "GDEF builder used to be droppable while GSUB/GPOS already referred to its mark glyph sets; seeded, not a defect of the pinned tree); (T4) every field that "
-      "receives a name id minted by the feature compiler is adjusted by remap_name_ids (found: the size feature's menu name id; repaired); (a) no serialisation or compile error is dropped "
+      "receives a name id minted by the feature compiler is adjusted by remap_name_ids (found: the size feature's menu name id; repaired) and every field it rewrites goes through its reserved-id-preserving closure (found: STAT elided fallback id 2 became 4; repaired); "
+      "(T6) axis indices come from the variable axes only: StaticMetadata.all_source_axes is read by front ends alone (seeded); (a) no serialisation or compile error is dropped "
       "between a job's table value and the bytes handed to the font builder, for every function reachable from the entry points (each of the "
       "type-resolved discard sites is audited or reported; the to_bytes().ok() defect that produced a font without a name table was found this way and "
       "repaired); (b) TABLES_TO_MERGE, font::has, font::bytes_for and FontWork::read_access agree arm by arm, list the required tables, and every table "
@@ -71,7 +72,8 @@ claim("C05", "E3+E5",
 claim("C14", "E5",
       "static analysis: structural rules over the file-name derivation (match-arm exhaustiveness, literal distinctness, format-spec scan from the AST), serde attribute census, restore-path call confinement",
       "Static decision of the structural clauses of C14 only (P1-P4): distinct work-id variants map to distinct file names at the variant level, no "
-      "lossy (precision) formatting in a persisted file name, no undocumented serde(skip) on persisted types, disk reads confined to the restore path. "
+      "lossy (precision) formatting in a persisted file name, no undocumented serde(skip) on persisted types, disk reads confined to the restore path, "
+      "(P5) every metacharacter string_to_filename introduces is itself reserved, (P6) hand-written Serialize/Deserialize impls on IR/BE types are a reviewed census (a new one is a violation). "
       "These are necessary conditions: breaking any of them makes two items share a file or lose a field on read-back for some input. Round-trip "
       "value equality, byte-identity of the font with --emit-ir and string_to_filename injectivity are value-level and NOT decided.",
       "Trusted: rustc MIR and AST (format_args placeholders are read from the expanded AST), tables/e5_tables.json (documented session-only fields).",
@@ -150,7 +152,8 @@ claim("C01", "E2+E1",
 
 claim("C18", "E2+E5",
       "static analysis: the C01 hash-order taint analysis restricted to the name flow (name-id allocation, name table assembly, fvar/STAT references, fea-rs name handling); forward data-flow from the name-id minting calls to output-table fields compared with the fields the remap function writes (sibling agreement)",
-      "Static decision of THREE clauses of C18: (T5) the feature-code name-id allocator is advanced on every path of the function that hands an id out "
+      "Static decision of FOUR clauses of C18: (N5) every name record derived from the source reaches the merge with the feature file's records, which replaces one only on an equal "
+      "platform/encoding/language/name-id key (seeded); (T5) the feature-code name-id allocator is advanced on every path of the function that hands an id out "
       "(found: a group of empty names left it untouched and the next group got the same id; repaired); (H) the name table and the name ids other tables refer to do not depend on anything but the source, i.e. "
       "not on per-process hash iteration order; (T4) every output-table field that receives a name id minted by the feature compiler (featureNames, "
       "cvParameters, sizemenuname, STAT names) is adjusted when those ids are shifted past the ids the font already uses - a forgotten field refers to "
